@@ -6,6 +6,8 @@ import (
 	"github.com/cyrildever/feistel"
 	"github.com/cyrildever/feistel/common/utils/hash"
 	"go.opentelemetry.io/collector/pdata/pcommon"
+	"go.opentelemetry.io/collector/pdata/plog"
+	"go.opentelemetry.io/collector/pdata/pmetric"
 	"go.opentelemetry.io/collector/pdata/ptrace"
 	"go.uber.org/zap"
 
@@ -274,4 +276,159 @@ func VerifHarness_C17_traces() {
 	rt.Assert(osp.Name() == o.verifE(spanName), "C17.traces.span_name")
 	rt.Assert(rt.And(oss.Scope().Name() == o.verifE(scopeName), oss.Scope().Version() == o.verifE(scopeVer)), "C17.traces.scope_name_version")
 	rt.Assert(rt.And(len(osp.Name()) == len(spanName), len(oss.Scope().Name()) == len(scopeName)), "C17.traces.same_length")
+}
+
+// verifPut: two attributes — one string under a listed ("a") or unlisted ("b") key (symbolic choice, symbolic
+// one-byte value) and one integer; returns a private copy of the input map.
+func verifPut(m pcommon.Map, tag string) pcommon.Map {
+	key := "b"
+	if rt.Bool(tag + ".listed") {
+		key = "a"
+	}
+	m.PutStr(key, string(rt.FixedBytes(tag+".v", 1)))
+	m.PutInt("n", rt.Int64(tag+".n"))
+	c := pcommon.NewMap()
+	m.CopyTo(c)
+	return c
+}
+
+func verifCheckMap(o *obfuscation, in, got pcommon.Map, id string) {
+	want := pcommon.NewMap()
+	verifExpectAttrs(o, in, want)
+	rt.Assert(verifSameMap(got, want), id)
+}
+
+// VerifHarness_C17_logs: processLogs over RECORDS log records in one scope of one resource: container counts
+// preserved, non-attribute record fields untouched (body, severity text, times), resource / scope / record
+// attribute maps agree with the reference model.
+func VerifHarness_C17_logs() {
+	o := verifObf(rt.Bool("encryptAll"))
+	ld := plog.NewLogs()
+	rl := ld.ResourceLogs().AppendEmpty()
+	inRes := verifPut(rl.Resource().Attributes(), "res")
+	sl := rl.ScopeLogs().AppendEmpty()
+	inScope := verifPut(sl.Scope().Attributes(), "scope")
+	n := rt.Param("RECORDS")
+	ins := make([]pcommon.Map, n)
+	bodies := make([]string, n)
+	times := make([]uint64, n)
+	for i := 0; i < n; i++ {
+		lr := sl.LogRecords().AppendEmpty()
+		bodies[i] = string(rt.FixedBytes("body", 1))
+		lr.Body().SetStr(bodies[i])
+		times[i] = rt.Uint64("time")
+		lr.SetTimestamp(pcommon.Timestamp(times[i]))
+		ins[i] = verifPut(lr.Attributes(), "record")
+	}
+	out, err := o.processLogs(context.Background(), ld)
+	rt.Assert(err == nil, "C17.logs.no_error")
+	rt.Assert(out.ResourceLogs().Len() == 1, "C17.logs.resource_count")
+	orl := out.ResourceLogs().At(0)
+	rt.Assert(orl.ScopeLogs().Len() == 1, "C17.logs.scope_count")
+	osl := orl.ScopeLogs().At(0)
+	rt.Assert(osl.LogRecords().Len() == n, "C17.logs.record_count")
+	if osl.LogRecords().Len() != n {
+		return
+	}
+	verifCheckMap(o, inRes, orl.Resource().Attributes(), "C17.logs.resource_attrs")
+	verifCheckMap(o, inScope, osl.Scope().Attributes(), "C17.logs.scope_attrs")
+	for i := 0; i < n; i++ {
+		olr := osl.LogRecords().At(i)
+		rt.Assert(rt.And(uint64(olr.Timestamp()) == times[i], rt.And(olr.Body().Type() == pcommon.ValueTypeStr, olr.Body().Str() == bodies[i])), "C17.logs.record_fields_untouched")
+		verifCheckMap(o, ins[i], olr.Attributes(), "C17.logs.record_attrs")
+	}
+}
+
+// VerifHarness_C17_metrics: processMetrics over one metric of every type (symbolic choice) with POINTS data
+// points: container counts preserved, point values / times untouched, resource / scope / point attribute maps
+// agree with the reference model.
+func VerifHarness_C17_metrics() {
+	o := verifObf(rt.Bool("encryptAll"))
+	md := pmetric.NewMetrics()
+	rm := md.ResourceMetrics().AppendEmpty()
+	inRes := verifPut(rm.Resource().Attributes(), "res")
+	sm := rm.ScopeMetrics().AppendEmpty()
+	inScope := verifPut(sm.Scope().Attributes(), "scope")
+	m := sm.Metrics().AppendEmpty()
+	m.SetName("m")
+	kind := rt.Int("kind")
+	rt.Assume(kind >= 0)
+	rt.Assume(kind <= 4)
+	n := rt.Param("POINTS")
+	ins := make([]pcommon.Map, n)
+	times := make([]uint64, n)
+	for i := 0; i < n; i++ {
+		times[i] = rt.Uint64("time")
+		ts := pcommon.Timestamp(times[i])
+		switch kind {
+		case 0:
+			if i == 0 {
+				m.SetEmptyGauge()
+			}
+			dp := m.Gauge().DataPoints().AppendEmpty()
+			dp.SetTimestamp(ts)
+			ins[i] = verifPut(dp.Attributes(), "point")
+		case 1:
+			if i == 0 {
+				m.SetEmptySum()
+			}
+			dp := m.Sum().DataPoints().AppendEmpty()
+			dp.SetTimestamp(ts)
+			ins[i] = verifPut(dp.Attributes(), "point")
+		case 2:
+			if i == 0 {
+				m.SetEmptyHistogram()
+			}
+			dp := m.Histogram().DataPoints().AppendEmpty()
+			dp.SetTimestamp(ts)
+			ins[i] = verifPut(dp.Attributes(), "point")
+		case 3:
+			if i == 0 {
+				m.SetEmptyExponentialHistogram()
+			}
+			dp := m.ExponentialHistogram().DataPoints().AppendEmpty()
+			dp.SetTimestamp(ts)
+			ins[i] = verifPut(dp.Attributes(), "point")
+		default:
+			if i == 0 {
+				m.SetEmptySummary()
+			}
+			dp := m.Summary().DataPoints().AppendEmpty()
+			dp.SetTimestamp(ts)
+			ins[i] = verifPut(dp.Attributes(), "point")
+		}
+	}
+	out, err := o.processMetrics(context.Background(), md)
+	rt.Assert(err == nil, "C17.metrics.no_error")
+	rt.Assert(out.ResourceMetrics().Len() == 1, "C17.metrics.resource_count")
+	orm := out.ResourceMetrics().At(0)
+	rt.Assert(orm.ScopeMetrics().Len() == 1, "C17.metrics.scope_count")
+	osm := orm.ScopeMetrics().At(0)
+	rt.Assert(osm.Metrics().Len() == 1, "C17.metrics.metric_count")
+	if osm.Metrics().Len() != 1 {
+		return
+	}
+	om := osm.Metrics().At(0)
+	verifCheckMap(o, inRes, orm.Resource().Attributes(), "C17.metrics.resource_attrs")
+	verifCheckMap(o, inScope, osm.Scope().Attributes(), "C17.metrics.scope_attrs")
+	rt.Assert(om.Name() == "m", "C17.metrics.name_untouched")
+	point := func(i int) (pcommon.Map, pcommon.Timestamp, int) {
+		switch kind {
+		case 0:
+			return om.Gauge().DataPoints().At(i).Attributes(), om.Gauge().DataPoints().At(i).Timestamp(), om.Gauge().DataPoints().Len()
+		case 1:
+			return om.Sum().DataPoints().At(i).Attributes(), om.Sum().DataPoints().At(i).Timestamp(), om.Sum().DataPoints().Len()
+		case 2:
+			return om.Histogram().DataPoints().At(i).Attributes(), om.Histogram().DataPoints().At(i).Timestamp(), om.Histogram().DataPoints().Len()
+		case 3:
+			return om.ExponentialHistogram().DataPoints().At(i).Attributes(), om.ExponentialHistogram().DataPoints().At(i).Timestamp(), om.ExponentialHistogram().DataPoints().Len()
+		}
+		return om.Summary().DataPoints().At(i).Attributes(), om.Summary().DataPoints().At(i).Timestamp(), om.Summary().DataPoints().Len()
+	}
+	for i := 0; i < n; i++ {
+		got, ts, cnt := point(i)
+		rt.Assert(cnt == n, "C17.metrics.point_count")
+		rt.Assert(uint64(ts) == times[i], "C17.metrics.point_fields_untouched")
+		verifCheckMap(o, ins[i], got, "C17.metrics.point_attrs")
+	}
 }
